@@ -73,9 +73,9 @@ Qed.
 Lemma enc_map_of_np kvs : np (enc_map_of kvs).
 Proof. unfold enc_map_of. destruct (adjacent_dup _); discriminate. Qed.
 
-Lemma enc_np : forall g, np (enc g).
+Lemma enc_np : forall g kb, np (enc kb g).
 Proof.
-  induction g using gv_ind'; cbn [enc]; try discriminate.
+  induction g using gv_ind'; intros kb; cbn [enc]; try discriminate.
   - (* GArr *) apply np_bind; [|intros; discriminate].
     induction H as [|y l Hy Hl IH]; [discriminate|]. apply np_bind; auto. intros a. apply np_bind; auto. intros; discriminate.
   - (* GMap *) apply np_bind; [|intros; apply enc_map_of_np].
@@ -85,28 +85,28 @@ Proof.
   - (* GTag *) apply np_bind; auto. intros; discriminate.
   - (* GSimple *) unfold enc_simple. repeat (apply np_if; try discriminate).
   - (* GCsig *)
-    assert (Pairs : forall l0, Forall (fun x => np (enc x)) l0 ->
+    assert (Pairs : forall kb' l0, Forall (fun x => forall kb, np (enc kb x)) l0 ->
               np ((fix go (l : list gv) : res (list (bytes * bytes)) :=
                      match l with
-                     | k :: v :: r => let* a := enc k in let* b := enc v in let* c := go r in Acc ((a, b) :: c)
+                     | k :: v :: r => let* a := enc kb' k in let* b := enc kb' v in let* c := go r in Acc ((a, b) :: c)
                      | _ => Acc []
                      end) l0)).
-    { fix IH 1. intros [|k [|v r]] HF; try discriminate.
+    { intros kb'. fix IH 1. intros [|k [|v r]] HF; try discriminate.
       inversion HF as [|? ? Hk HF']; subst. inversion HF' as [|? ? Hv HF'']; subst.
       apply np_bind; auto. intros a. apply np_bind; auto. intros b. apply np_bind; [apply IH; auto|]. intros; discriminate. }
     apply np_if; [discriminate|]. apply np_if; [discriminate|].
     apply np_bind.
     { apply np_if; [discriminate|]. destruct p as [[|a0 l0]|]; try discriminate.
-      apply np_if; [|discriminate]. apply np_bind; [exact (Pairs _ H)|]. intros kvs. apply np_bind; [apply enc_map_of_np|]. intros; discriminate. }
+      apply np_if; [|discriminate]. apply np_bind; [exact (Pairs true _ H)|]. intros kvs. apply np_bind; [apply enc_map_of_np|]. intros; discriminate. }
     intros pb. apply np_bind.
     { apply np_if; [discriminate|]. destruct u as [[|a0 l0]|]; try discriminate.
-      apply np_if; [|discriminate]. apply np_bind; [exact (Pairs _ H0)|]. intros kvs. apply enc_map_of_np. }
+      apply np_if; [|discriminate]. apply np_bind; [exact (Pairs false _ H0)|]. intros kvs. apply enc_map_of_np. }
     intros; discriminate.
   - (* GCsigs *) apply np_bind; [|intros; discriminate].
     induction H as [|y l Hy Hl IH]; [discriminate|]. apply np_bind; auto. intros a. apply np_bind; auto. intros; discriminate.
 Qed.
 
-Lemma enc_pairs_np l : np (enc_pairs l).
+Lemma enc_pairs_np kb l : np (enc_pairs kb l).
 Proof.
   unfold enc_pairs. revert l. fix IH 1. intros [|k [|v r]]; try discriminate.
   apply np_bind; [apply enc_np|]. intros a. apply np_bind; [apply enc_np|]. intros b. apply np_bind; [apply IH|]. intros; discriminate.
